@@ -30,4 +30,10 @@ def run(ctx: Ctx) -> None:
     rep.rule("C06.R4", "temporaries are writer-unique (a leftover of a killed process must not block a later one); store_blob always publishes the marker")
     S.unique_temporaries(ctx, v, "C06.R4")
     S.store_always_publishes(ctx, v, "C06.R4")
+    S.rename_after_close(ctx, v, "C06.R3")
+    rep.rule("C06.R5", "as C04.R1: every evaluation that returns commits its complete path map, so a re-run repairs a path commit interrupted by a crash")
+    from .common import find_api_functions
+    from .c04 import commit_rules
+    top, _n = find_api_functions(ctx)
+    commit_rules(ctx, top, "C06.R5")
     rep.floor("C06.effects", v.n_effects, 9)
